@@ -139,6 +139,48 @@ End BCF.
 Definition bcf_encode_record (r : list N * list N) : list N :=
   le32 (N.of_nat (length (fst r))) ++ le32 (N.of_nat (length (snd r))) ++ fst r ++ snd r.
 
+(* the eager path, noodles-bcf/src/io/reader/record_buf.rs::read_record_buf after the repair
+   762d61e (l_shared is read with the same read_site_length as the lazy path): the site bytes are
+   decoded by read_site right after they are read and the sample bytes by read_samples (whose
+   errors are mapped to InvalidData); both decoders are parameters (None = accepted) *)
+Section BCFBuf.
+  Variable site_dec : list N -> option ekind.
+  Variable samples_dec : list N -> list N -> option ekind.
+
+  Definition bcf_read_record_buf (after : stop) (bs : list N) : step (list N * list N) :=
+    match bs with
+    | [] => Stop after
+    | _ :: _ =>
+      match take 4 bs with
+      | None => Stop (Err (short after))
+      | Some (h, r) =>
+        let l_shared := le_dec h in
+        if l_shared =? 0 then Stop Eof else
+        match take 4 r with
+        | None => Stop (Err (short after))
+        | Some (h2, r2) =>
+          let l_indiv := le_dec h2 in
+          match take l_shared r2 with
+          | None => Stop (Err (short after))
+          | Some (site, r3) =>
+            match site_dec site with
+            | Some e => Stop (Err e)
+            | None =>
+              match take l_indiv r3 with
+              | None => Stop (Err (short after))
+              | Some (samples, r4) =>
+                match samples_dec site samples with
+                | Some e => Stop (Err e)
+                | None => Item (site, samples) r4
+                end
+              end
+            end
+          end
+        end
+      end
+    end.
+End BCFBuf.
+
 (* ------------------------------------------------------------------------------------------ *)
 (* BGZF block sequence *)
 
@@ -206,7 +248,64 @@ Section BGZF.
     let p := concat ds in
     if (length p <? hdr)%nat then None
     else Some (read_stream (bam_read_record s) (skipn hdr p)).
+
+  (* any record reader on top of the BGZF reader, positioned [hdr] uncompressed bytes in *)
+  Definition rec_over_bgzf {A : Type} (rd : stop -> list N -> step A) (hdr : nat) (file : list N)
+    : option (list A * stop) :=
+    let (ds, s) := bgzf_blocks file in
+    let p := concat ds in
+    if (length p <? hdr)%nat then None
+    else Some (read_stream (rd s) (skipn hdr p)).
 End BGZF.
+
+(* ------------------------------------------------------------------------------------------ *)
+(* text records (VCF / SAM lines) on a byte source: noodles-vcf/src/io/reader.rs read_record_buf +
+   read_line and noodles-sam/src/io/reader/record_buf.rs read_record_buf + io/reader.rs read_line:
+   read up to and including the next line feed (std read_until / read_line), drop the line feed and
+   a carriage return before it, parse the line (errors mapped to InvalidData; the parser is the
+   parameter [parse_ok], None = accepted).  0 bytes read = end of input.  A source that ENDS inside
+   a line hands the partial line to the parser as a final line without line feed; a source that
+   FAILS inside a line makes read_until fail. *)
+Fixpoint split_lf (bs : list N) : option (list N * list N) :=
+  match bs with
+  | [] => None
+  | b :: t => if b =? 10 then Some ([], t)
+              else match split_lf t with
+                   | Some (l, r) => Some (b :: l, r)
+                   | None => None
+                   end
+  end.
+
+Definition strip_cr (l : list N) : list N :=
+  match rev l with
+  | 13 :: r => rev r
+  | _ => l
+  end.
+
+Section TEXT.
+  Variable parse_ok : list N -> option ekind.
+
+  Definition text_read_record (after : stop) (bs : list N) : step (list N) :=
+    match bs with
+    | [] => Stop after
+    | _ :: _ =>
+      match split_lf bs with
+      | Some (l, r) =>
+        match parse_ok (strip_cr l) with
+        | Some e => Stop (Err e)
+        | None => Item (strip_cr l) r
+        end
+      | None =>
+        match after with
+        | Eof => match parse_ok bs with
+                 | Some e => Stop (Err e)
+                 | None => Item bs []
+                 end
+        | Err e => Stop (Err e)
+        end
+      end
+    end.
+End TEXT.
 
 (* instance used by the correspondence check: every complete frame of a prefix of a file written
    by noodles is an original frame, which inflates to ISIZE bytes; only the sizes are observed *)
@@ -245,6 +344,35 @@ Fixpoint inflate_table (tab : list (list N * list N)) (f : list N) : option (lis
 (* None = header unreadable *)
 Definition obs_bamz (tab : list (list N * list N)) (hdr k : nat) (file : list N) : option (N * N) :=
   match bam_over_bgzf (inflate_table tab) hdr (firstn k file) with
+  | None => None
+  | Some (xs, s) => Some (N.of_nat (length xs), stop_code s)
+  end.
+
+(* the eager BCF reader (decoders accept: the compared streams hold records noodles wrote) *)
+Definition obs_bcf_eager (k : nat) (bs : list N) : N * N :=
+  let (xs, s) := read_stream (bcf_read_record_buf (fun _ => None) (fun _ _ => None) Eof) (firstn k bs) in
+  (N.of_nat (length xs), stop_code s).
+
+(* BCF over BGZF through record_bufs (the eager reader) *)
+Definition obs_bcfz (tab : list (list N * list N)) (hdr k : nat) (file : list N) : option (N * N) :=
+  match rec_over_bgzf (inflate_table tab) (bcf_read_record_buf (fun _ => None) (fun _ _ => None)) hdr
+          (firstn k file) with
+  | None => None
+  | Some (xs, s) => Some (N.of_nat (length xs), stop_code s)
+  end.
+
+(* bgzipped text through record_bufs: [rejected] lists the lines the record parser refuses (built by
+   the harness with the real parser on the plain line; every other line is accepted) *)
+Fixpoint reject_table (tab : list (list N * N)) (l : list N) : option ekind :=
+  match tab with
+  | [] => None
+  | (g, c) :: t => if bytes_eqb g l then Some (if c =? 1 then UnexpectedEof else InvalidData)
+                   else reject_table t l
+  end.
+
+Definition obs_textz (tab : list (list N * list N)) (rejected : list (list N * N)) (hdr k : nat)
+    (file : list N) : option (N * N) :=
+  match rec_over_bgzf (inflate_table tab) (text_read_record (reject_table rejected)) hdr (firstn k file) with
   | None => None
   | Some (xs, s) => Some (N.of_nat (length xs), stop_code s)
   end.
